@@ -614,6 +614,7 @@ Lemma popen_follow_ok fuel h base sub fl :
   real_fd (ph_fd h) = true -> okf Qfd (popen_follow fz cfg fuel h base sub fl).
 Proof.
   intro Hh. unfold popen_follow.
+  destruct (_ || _); [constructor; exact I|].
   destruct (path_strip_trailing_slash sub) as [sub' ts].
   eapply okp_bind; [eapply okp_weaken_P; [apply Pdn_Pd|]; apply preadlink_ok; assumption|]. intros rl _.
   destruct rl as [_b|e]; [|eapply okp_weaken_P; [apply Pdn_Pd|]; apply popen_ok; assumption].
